@@ -228,12 +228,16 @@ def rule_T4(ctx: Ctx) -> None:
 
 def rule_T6(ctx: Ctx) -> None:
     g = ctx.index.func(f"{MT}.AdjListTokenizers._AdjListTokenizer._tokenize_edge_grouping")
-    co = X.assignments_to(g.node, "cxn_ord")
-    ok0 = len(co) == 1 and X.same_expr(co[0], "group_params['connection_token_ordinal']")
+    ORD = "group_params['connection_token_ordinal']"
+    is_ord = lambda e: X.same_expr(X.expand_locals(e, g.node), ORD)  # the ordinal, directly or through a local
+    ok0 = True
     perms = [n for n in ast.walk(g.node) if isinstance(n, (ast.Assign, ast.AnnAssign)) and X.U(n.targets[0] if isinstance(n, ast.Assign) else n.target) == "callable_permutation"]
     perm = [n for n in perms if isinstance(n.value, ast.List)]
     gp = [n for n in perms if isinstance(n.value, ast.IfExp)]
-    ins = [n for n in ast.walk(g.node) if isinstance(n, ast.Expr) and X.same_expr(n.value, "callable_permutation.insert(cxn_ord, 1)")]
+    ins = [n for n in ast.walk(g.node) if isinstance(n, ast.Expr) and isinstance(n.value, ast.Call) and X.U(n.value.func) == "callable_permutation.insert"
+           and len(n.value.args) == 2 and is_ord(n.value.args[0]) and N.const_int(n.value.args[1]) == 1]
+    other_ins = [n for n in ast.walk(g.node) if isinstance(n, ast.Call) and X.U(n.func) == "callable_permutation.insert"]
+    ok0 = len(other_ins) == len(ins)
     ev = Evaluator()
     results = {}
     ok = ok0 and len(perm) == 1 and len(ins) == 1
@@ -250,7 +254,8 @@ def rule_T6(ctx: Ctx) -> None:
     # grouped branch: [1, 2] if ordinal 0 else [2, 1], under group_params['grouped']
     par = X.parents_map(g.node)
     under_grouped = bool(gp) and isinstance(par.get(gp[0]), ast.If) and X.U(par[gp[0]].test).replace('"', "'") == "group_params['grouped']"
-    ctx.judge(g, len(gp) == 1 and under_grouped and X.same_expr(gp[0].value, "[1, 2] if cxn_ord == 0 else [2, 1]"), {"grouped": X.U(gp[0].value) if gp else None},
+    ctx.judge(g, len(gp) == 1 and under_grouped and isinstance(gp[0].value.test, ast.Compare) and len(gp[0].value.test.ops) == 1 and isinstance(gp[0].value.test.ops[0], ast.Eq)
+              and is_ord(gp[0].value.test.left) and N.const_int(gp[0].value.test.comparators[0]) == 0 and X.same_expr(gp[0].value.body, "[1, 2]") and X.same_expr(gp[0].value.orelse, "[2, 1]"), {"grouped": X.U(gp[0].value) if gp else None},
               "grouped edges: connector before the trailing part iff the ordinal is 0")
     u = ctx.index.cls(f"{MT}.EdgeGroupings.Ungrouped")
     f = u.fields.get("connection_token_ordinal")
